@@ -423,11 +423,16 @@ ares_status_t ares_reinit(ares_channel_t *channel)
     return ARES_SUCCESS;
   }
   channel->reinit_pending = ARES_TRUE;
-  ares_channel_unlock(channel);
 
   if (ares_threadsafety()) {
-    /* clean up the prior reinit process's thread.  We know the thread isn't
-     * running since reinit_pending was false */
+    /* Keep holding the channel lock: joining the previous thread, starting
+     * the new one and storing its handle must be one step with the check
+     * above, or concurrent callers (and the event thread's configuration
+     * watcher) overwrite each other's handle and leak a thread.
+     *
+     * clean up the prior reinit process's thread.  We know the thread is past
+     * its last use of the lock since reinit_pending was false.  The new thread
+     * simply blocks on the lock until we release it. */
     if (channel->reinit_thread != NULL) {
       void *rv;
       ares_thread_join(channel->reinit_thread, &rv);
@@ -438,13 +443,11 @@ ares_status_t ares_reinit(ares_channel_t *channel)
     status =
       ares_thread_create(&channel->reinit_thread, ares_reinit_thread, channel);
     if (status != ARES_SUCCESS) {
-      /* LCOV_EXCL_START: UntestablePath */
-      ares_channel_lock(channel);
-      channel->reinit_pending = ARES_FALSE;
-      ares_channel_unlock(channel);
-      /* LCOV_EXCL_STOP */
+      channel->reinit_pending = ARES_FALSE; /* LCOV_EXCL_LINE: UntestablePath */
     }
+    ares_channel_unlock(channel);
   } else {
+    ares_channel_unlock(channel);
     /* Threading support not available, call directly */
     ares_reinit_thread(channel);
   }
